@@ -2,6 +2,7 @@ package props
 
 import (
 	"fmt"
+	"math"
 	"sort"
 
 	"github.com/Tom-Johnston/mamba/ints"
@@ -55,8 +56,11 @@ func strictlyIncreasing(a []int) bool {
 
 // genValue draws mostly from a dense small range (to force collisions), sometimes any int.
 func genValue(t *rapid.T) int {
-	if rapid.IntRange(0, 19).Draw(t, "wide") == 0 {
+	switch rapid.IntRange(0, 29).Draw(t, "wide") {
+	case 0:
 		return rapid.Int().Draw(t, "v")
+	case 1:
+		return rapid.SampledFrom([]int{math.MinInt, math.MinInt + 1, math.MaxInt, math.MaxInt - 1, math.MinInt32, math.MaxInt32}).Draw(t, "edge")
 	}
 	return rapid.IntRange(-8, 12).Draw(t, "v")
 }
@@ -330,6 +334,27 @@ func checkSfCase(c sfCase, rec *Rec) error {
 	}
 	if got := sortints.ContainsSorted(c.A, c.B); got != subset {
 		return fmt.Errorf("ContainsSorted(%v,%v) = %v want %v", a0, b0, got, subset)
+	}
+	// the empty set has several representations (nil, empty literal, emptied by Remove, results of other functions)
+	emptied := sortints.NewSortedInts(5)
+	emptied.Remove(5)
+	empties := map[string]sortints.SortedInts{"nil": nil, "literal": {}, "NewSortedInts()": sortints.NewSortedInts(), "emptied": emptied,
+		"Range(3,3,1)": sortints.Range(3, 3, 1), "Intersection": sortints.Intersection(sortints.SortedInts{1}, sortints.SortedInts{2})}
+	for n1, e1 := range empties {
+		if !sortints.ContainsSorted(c.A, e1) {
+			return fmt.Errorf("ContainsSorted(%v, empty set as %s) = false", a0, n1)
+		}
+		if sortints.ContainsSorted(e1, c.A) != (len(c.A) == 0) {
+			return fmt.Errorf("ContainsSorted(empty set as %s, %v) = %v", n1, a0, len(c.A) != 0)
+		}
+		for n2, e2 := range empties {
+			if !sortints.ContainsSorted(e1, e2) || sortints.IntersectionSize(e1, e2) != 0 || len(sortints.Union(e1, e2)) != 0 || len(sortints.XOR(e1, e2)) != 0 {
+				return fmt.Errorf("set functions on two empty sets (%s, %s) give a non-empty or false answer", n1, n2)
+			}
+		}
+		if !eqInts(sortints.Union(c.A, e1), a0) || !eqInts(sortints.SetMinus(c.A, e1), a0) || len(sortints.Intersection(c.A, e1)) != 0 {
+			return fmt.Errorf("Union/SetMinus/Intersection of %v with the empty set as %s is wrong", a0, n1)
+		}
 	}
 	rec.Labelf("subset-%v", subset)
 	for _, x := range append([]int{c.X}, universe...) {
